@@ -267,39 +267,42 @@ def g_val(case, v, t) -> str:
     raise ValueError(t)
 
 
-def g_opnd(case, e) -> str:
+def g_opnd(case, e, ix=None) -> str:
+    """[ix]: variable name -> number (default: position in VARS); cases with generated variables number them apart"""
     k = e[0]
     if k == "lit":
         return f"(OLit ({g_val(case, e[1], otype(case, e))}))"
     if k == "var":
-        return f"(OVar {VARS.index(e[1])}%nat)"
+        return f"(OVar {VARS.index(e[1]) if ix is None else ix[e[1]]}%nat)"
     if k == "idx":       # e.pair[i]: Index(Attribute) -- a function of the value, modelled as one attribute step
-        return f"(OAttr {g_opnd(case, e[1])} {ATTR_ID['pair[%d]' % e[2]]}%nat)"
+        return f"(OAttr {g_opnd(case, e[1], ix)} {ATTR_ID['pair[%d]' % e[2]]}%nat)"
     if k == "call":      # e.geta(): Call(Attribute)
-        return f"(OAttr {g_opnd(case, e[1])} {ATTR_ID['geta()']}%nat)"
-    return f"(OAttr {g_opnd(case, e[1])} {ATTR_ID[e[2]]}%nat)"
+        return f"(OAttr {g_opnd(case, e[1], ix)} {ATTR_ID['geta()']}%nat)"
+    return f"(OAttr {g_opnd(case, e[1], ix)} {ATTR_ID[e[2]]}%nat)"
 
 
-def g_cond(case, c) -> str:
+def g_cond(case, c, ix=None) -> str:
     k = c[0]
+    vi = (lambda n: VARS.index(n)) if ix is None else (lambda n: ix[n])
     if k == "cmp":
-        return f"(CCmp {OPS[c[1]]} {g_opnd(case, c[2])} {g_opnd(case, c[3])})"
+        return f"(CCmp {OPS[c[1]]} {g_opnd(case, c[2], ix)} {g_opnd(case, c[3], ix)})"
     if k == "contains":
-        return f"(CCmp OpContains {g_opnd(case, c[1])} {g_opnd(case, c[2])})"
+        return f"(CCmp OpContains {g_opnd(case, c[1], ix)} {g_opnd(case, c[2], ix)})"
     if k == "and":
-        return f"(mk_and {g_cond(case, c[1])} {g_cond(case, c[2])})"
+        return f"(mk_and {g_cond(case, c[1], ix)} {g_cond(case, c[2], ix)})"
     if k == "or":
-        return f"(mk_or {g_cond(case, c[1])} {g_cond(case, c[2])})"
+        # with generated variables or_ decides by the Variable instances below them (Eql/EvalDep.v: mk_orD over [dsv])
+        return f"({'mk_or' if ix is None or ix.get('#plain') else 'mk_orD dsv'} {g_cond(case, c[1], ix)} {g_cond(case, c[2], ix)})"
     if k == "not":
-        return f"(mk_not {g_cond(case, c[1])})"
+        return f"(mk_not {g_cond(case, c[1], ix)})"
     if k == "exists":
-        return f"(CExists (OVar {VARS.index(c[1])}%nat) {g_cond(case, c[2])})"
+        return f"(CExists (OVar {vi(c[1])}%nat) {g_cond(case, c[2], ix)})"
     if k == "forall":
-        return f"(CForAll {VARS.index(c[1])}%nat {g_cond(case, c[2])})"
+        return f"(CForAll {vi(c[1])}%nat {g_cond(case, c[2], ix)})"
     raise ValueError(k)
 
 
-def g_case(case) -> str:
+def g_world(case) -> str:
     objs = []
     for o in case["objs"]:
         if o["cls"] == "P":
@@ -310,18 +313,72 @@ def g_case(case) -> str:
         else:
             attrs = [(0, f"VI {zlit(o['a'])}"), (5, f"VI {zlit(o['k'])}")]
         objs.append(f"({o['id']}, {zlit(o['key'])}, [" + "; ".join(f"({a}%nat, {v})" for a, v in attrs) + "])")
-    doms = []
-    for name in VARS:
-        if name in case["vars"]:
-            t = case["vars"][name]
-            # the domain cache presents every element once (HashedIterable keys by identity; since /repo 1997e3c also on
-            # the evaluation that fills the cache): the model is given the domain as the cache presents it
-            dom = list(dict.fromkeys(case["doms"][name]))
-            doms.append(f"({VARS.index(name)}%nat, [" + "; ".join(g_val(case, v, t) for v in dom) + "])")
+    return "[" + "; ".join(objs) + "]"
+
+
+def g_dom(case, number: int, t: str, dom) -> str:
+    # the domain cache presents every element once (HashedIterable keys by identity; since /repo 1997e3c also on
+    # the evaluation that fills the cache): the model is given the domain as the cache presents it
+    dom = list(dict.fromkeys(dom))
+    return f"({number}%nat, [" + "; ".join(g_val(case, v, t) for v in dom) + "])"
+
+
+def g_case(case) -> str:
+    doms = [g_dom(case, VARS.index(name), case["vars"][name], case["doms"][name]) for name in VARS if name in case["vars"]]
     sels = "[" + "; ".join(g_opnd(case, s) for s in case["sels"]) + "]"
     cond = f"(Some {g_cond(case, case['cond'])})" if case["cond"] is not None else "None"
-    return ("{| e_world := [" + "; ".join(objs) + "]; e_doms := [" + "; ".join(doms) + "]; "
+    return ("{| e_world := " + g_world(case) + "; e_doms := [" + "; ".join(doms) + "]; "
             f"e_query := {{| q_sels := {sels}; q_cond := {cond} |}} |}}")
+
+
+# ---- cases with generated variables (flatten / nested sub-queries): Eql/EvalDepSpec.v, Eql/EvalDep.v
+FLAT_BASE, SUBVAR_BASE, SUB_BASE = 10, 30, 50
+
+
+def dep_names(case) -> List[str]:
+    """the generated variables the query needs (used in the query, or in the source of a needed one), in dependency order"""
+    flat = case.get("flat") or {}
+    sub = case.get("sub") or {}
+    c = case["cond"]
+    need = set(cond_vars(c) if c is not None else []) | set(v for v in (opnd_var(s) for s in case["sels"]) if v)
+    for name in reversed(list(flat)):
+        if name in need and opnd_var(flat[name]):
+            need.add(opnd_var(flat[name]))
+    return [n for n in list(flat) + list(sub) if n in need]
+
+
+def g_case_dep(case) -> str:
+    """a [dcase]: plain variables keep their numbers (position in VARS); z = flatten(e) is number FLAT_BASE + k in
+    dependency order; z = an(entity(z0, c)) is number SUB_BASE + k, its own variable z0 number SUBVAR_BASE + k with the
+    sub-query's domain.  Declarations are listed most-dependent first."""
+    flat = case.get("flat") or {}
+    sub = case.get("sub") or {}
+    names = dep_names(case)
+    ix = {n: VARS.index(n) for n in case["vars"]}
+    k = 0
+    for n in names:
+        if n in flat:
+            ix[n] = FLAT_BASE + k
+            k += 1
+    for j, n in enumerate(m for m in names if m in sub):
+        ix[n] = SUB_BASE + j
+    doms = [g_dom(case, VARS.index(name), case["vars"][name], case["doms"][name]) for name in VARS if name in case["vars"]]
+    decls = []
+    for n in names:
+        if n in flat:
+            decls.append(f"({ix[n]}%nat, FlatOf {g_opnd(case, flat[n], ix)})")
+        else:
+            z0 = SUBVAR_BASE + (ix[n] - SUB_BASE)
+            sc = sub[n]["cond"]
+            # inside the sub-query its name stands for the sub-query's own variable
+            gc = f"(Some {g_cond(case, sc, dict(ix, **{n: z0, '#plain': True}))})" if sc is not None else "None"
+            decls.append(f"({ix[n]}%nat, SubOf {z0}%nat {gc})")
+            doms.append(g_dom(case, z0, sub[n]["type"], sub[n]["dom"]))
+    sels = "[" + "; ".join(g_opnd(case, s, ix) for s in case["sels"]) + "]"
+    cond = f"(Some {g_cond(case, case['cond'], ix)})" if case["cond"] is not None else "None"
+    ecase = ("{| e_world := " + g_world(case) + "; e_doms := [" + "; ".join(doms) + "]; "
+             f"e_query := {{| q_sels := {sels}; q_cond := {cond} |}} |}}")
+    return "(let dsv : decls := [" + "; ".join(reversed(decls)) + "] in {| dc_case := " + ecase + "; dc_decls := dsv |})"
 
 
 HEADER = """From Coq Require Import List ZArith.
@@ -330,6 +387,15 @@ Import ListNotations. Open Scope Z_scope."""
 HEADER_SPEC = HEADER  # Show.v depends on the model; when the model is broken the harness falls back to SPEC_ONLY below
 SPEC_ONLY_HEADER = """From Coq Require Import List ZArith.
 From Krrood Require Import Base.Sx Eql.Syntax Eql.Sat Eql.ShowSpec.
+Import ListNotations. Open Scope Z_scope."""
+DEP_HEADER = """From Coq Require Import List ZArith.
+From Krrood Require Import Base.Sx Eql.Syntax Eql.Sat Eql.Eval Eql.Show Eql.EvalDepSpec Eql.EvalDep Eql.ShowDep.
+Import ListNotations. Open Scope Z_scope."""
+DEP_FRAG_HEADER = """From Coq Require Import List ZArith.
+From Krrood Require Import Base.Sx Eql.Syntax Eql.Sat Eql.Eval Eql.Show Eql.EvalDepSpec Eql.EvalDep Eql.ShowDep Eql.ShowDepFrag.
+Import ListNotations. Open Scope Z_scope."""
+DEP_SPEC_ONLY_HEADER = """From Coq Require Import List ZArith.
+From Krrood Require Import Base.Sx Eql.Syntax Eql.Sat Eql.ShowSpec Eql.EvalDepSpec Eql.ShowDepSpec.
 Import ListNotations. Open Scope Z_scope."""
 
 
@@ -362,6 +428,13 @@ def canon_val(v) -> Any:
     raise TypeError(f"cannot canonicalise {v!r}")
 
 
+def flat_over_twins(case) -> bool:
+    """a flattened collection holds value-equal twins (class T): its elements are not characterised by contains(e, z),
+    which compares with ==, so the first-order reading of [spec_case] is not the Spec there"""
+    tids = set(o["id"] for o in case["objs"] if o["cls"] == "T")
+    return bool(case.get("flat")) and any(i in tids for o in case["objs"] if o["cls"] == "P" for i in o["kids"])
+
+
 def spec_case(case) -> dict:
     """the first-order reading of a case with flattened collections: w = flatten(e) is a variable over all objects with
     the extra conjunct contains(e, w).  Cases without "flat" are returned unchanged."""
@@ -371,6 +444,9 @@ def spec_case(case) -> dict:
     sc["vars"] = dict(case["vars"])
     sc["doms"] = dict(case["doms"])
     pids = [o["id"] for o in case["objs"] if o["cls"] == "P"]
+    tids = [o["id"] for o in case["objs"] if o["cls"] == "T"]
+    kid_ids = set(i for o in case["objs"] if o["cls"] == "P" for i in o["kids"])
+    kids_are_twins = bool(kid_ids) and kid_ids <= set(tids)     # collections of value-equal twins (gen_flat_twin_case)
     c = case["cond"]
     used = set(cond_vars(c) if c is not None else []) | set(v for v in (opnd_var(s) for s in case["sels"]) if v)
     def under_exists(n, name, member):
@@ -396,8 +472,8 @@ def spec_case(case) -> dict:
         if name not in used:
             continue        # (a shrunk case) the flattened collection no longer occurs in the query
         ints = e[0] == "attr" and e[2] == "items"
-        sc["vars"][name] = "int" if ints else "P"
-        sc["doms"][name] = [0, 1, 2] if ints else list(pids)
+        sc["vars"][name] = "int" if ints else ("T" if kids_are_twins else "P")
+        sc["doms"][name] = [0, 1, 2] if ints else (list(tids) if kids_are_twins else list(pids))
         member = ["contains", e, ["var", name]]
         done = False
         if c is not None:
@@ -570,12 +646,12 @@ def gen_twin_exists(rng: Rng) -> dict:
     return case
 
 
-def gen_flat_case(rng: Rng) -> dict:
+def gen_flat_case(rng: Rng, allow_empty: bool = False) -> dict:
     """a query over a flattened collection attribute: z = flatten(x.kids) (or flatten(x.child.kids)) used in conditions and
-    selections next to x (and possibly a second variable).  No Coq model of Flatten exists in Eql/Eval.v: these cases are
-    compared implementation vs the first-order Spec of [spec_case] only.  Every flattened collection is non-empty: an empty
-    one makes the flatten variable range over nothing, which is the empty-domain class (finding C01-h, witness
-    corpus/C01/kf_emptyflat.json), not what this stream is about."""
+    selections next to x (and possibly a second variable).  Model: Eql/EvalDep.v (generated variables), Spec
+    Eql/EvalDepSpec.v, cross-checked against the first-order reading of [spec_case].  Every flattened collection is
+    non-empty unless [allow_empty] (profile flat0): an empty one makes the flatten variable range over nothing, which is
+    the empty-domain class (finding C01-h2, witness corpus/C01/kf_emptyflat.json)."""
     n = rng.randint(1, 4)
     objs = [{"id": i, "cls": "P", "key": i, "a": rng.randint(0, 2), "b": rng.randint(0, 2),
              "items": [rng.randint(0, 2) for _ in range(rng.randint(0, 2))],
@@ -583,6 +659,13 @@ def gen_flat_case(rng: Rng) -> dict:
             for i in range(1, n + 1)]
     ids = [o["id"] for o in objs]
     case: Dict[str, Any] = {"objs": objs, "vars": {"x": "P"}, "doms": {"x": rng.sample(ids, rng.randint(1, n))}}
+    if allow_empty:
+        # profile flat0: some collections are empty, so that the flatten variable may range over nothing (the
+        # empty-domain finding class with flatten, C01-h2): compared three-way, tolerated only with impl = model
+        ra = rng.fork(977)
+        for o in objs:
+            if ra.chance(0.4):
+                o["kids"] = []
     if rng.chance(0.4):
         if rng.chance(0.5):
             case["vars"]["y"], case["doms"]["y"] = "P", rng.sample(ids, rng.randint(1, n))
@@ -647,6 +730,65 @@ def gen_flat_case(rng: Rng) -> dict:
     return case
 
 
+def gen_flat_twin_case(rng: Rng) -> dict:
+    """z = flatten(x.kids) where the collections hold value-equal but DISTINCT objects (class T compares by key): an
+    unnesting that drops an element because an EQUAL one was seen loses the twin's rows (seeded C11-D)"""
+    n = rng.randint(1, 3)
+    m = rng.randint(2, 4)
+    tw = [{"id": 100 + j, "cls": "T", "key": 1000 + (0 if j <= 2 else rng.randint(0, 1)), "k": 0, "a": rng.randint(0, 2)} for j in range(1, m + 1)]
+    for t in tw:
+        t["k"] = t["key"] - 1000
+    tids = [t["id"] for t in tw]
+    objs = [{"id": i, "cls": "P", "key": i, "a": rng.randint(0, 2), "b": rng.randint(0, 2),
+             "items": [rng.randint(0, 2) for _ in range(rng.randint(0, 2))],
+             "kids": (rng.sample(tids, rng.randint(2, m)) if rng.chance(0.8) else [rng.choice(tids)]), "child": rng.randint(1, n)}
+            for i in range(1, n + 1)] + tw
+    ids = list(range(1, n + 1))
+    case: Dict[str, Any] = {"objs": objs, "vars": {"x": "P"}, "doms": {"x": rng.sample(ids, rng.randint(1, n))}}
+    if rng.chance(0.3):
+        case["vars"]["y"], case["doms"]["y"] = "int", list(dict.fromkeys(rng.randint(0, 2) for _ in range(rng.randint(1, 3))))
+    names = list(case["vars"]) + ["z"]
+    typ = dict(case["vars"], z="T")
+
+    def iop(allow_lit=True):
+        if allow_lit and rng.chance(0.3):
+            return ["lit", rng.randint(0, 2)]
+        nm = rng.choice(names)
+        if typ[nm] == "int":
+            return ["var", nm]
+        return ["attr", ["var", nm], rng.choice(["a", "k"] if typ[nm] == "T" else ["a", "b"])]
+
+    def atom():
+        r = rng.random()
+        if r < 0.2:
+            return ["contains", ["attr", ["var", "x"], "kids"], ["var", "z"]]
+        if r < 0.3:
+            return ["contains", ["attr", ["var", "x"], "items"], iop()]
+        return ["cmp", rng.choice(list(OPS)), iop(False), iop()]
+
+    def cond(d):
+        r = rng.random()
+        if d <= 0 or r < 0.4:
+            a = atom()
+            return ["not", a] if rng.chance(0.2) else a
+        if r < 0.7:
+            return ["and", cond(d - 1), cond(d - 1)]
+        if r < 0.92:
+            return ["or", cond(d - 1), cond(d - 1)]
+        return ["not", cond(d - 1)]
+
+    c = cond(rng.randint(0, 2)) if rng.chance(0.85) else None
+    if c is not None and "z" not in cond_vars(c) and rng.chance(0.7):
+        c = ["and", c, ["cmp", rng.choice(list(OPS)), ["attr", ["var", "z"], rng.choice(["a", "k"])], iop()]]
+    case["cond"] = c
+    case["flat"] = {"z": ["attr", ["var", "x"], "kids"]}
+    sel_names = rng.sample(names, rng.randint(1, min(2, len(names))))
+    if "z" not in sel_names:
+        sel_names.append("z")          # the distinct twins show in the rows
+    case["sels"] = [["var", nm] for nm in sel_names]
+    return case
+
+
 def _py_val(objs_by_id, e, env):
     k = e[0]
     if k == "lit":
@@ -676,9 +818,9 @@ def _py_holds(objs_by_id, c, env) -> bool:
     raise ValueError(k)
 
 
-def gen_subq_case(rng: Rng) -> dict:
+def gen_subq_case(rng: Rng, allow_empty: bool = False) -> dict:
     """a query that uses a nested sub-query z = an(entity(z0, c_z)) like a variable (operand of comparisons, selected).
-    No Coq model of nested quantifiers as operands: compared implementation vs the first-order Spec of [spec_case]."""
+    Model: Eql/EvalDep.v (z := SubOf z0 c_z), Spec Eql/EvalDepSpec.v, cross-checked against [spec_case]."""
     n = rng.randint(1, 4)
     objs = [{"id": i, "cls": "P", "key": i, "a": rng.randint(0, 2), "b": rng.randint(0, 2),
              "items": [rng.randint(0, 2) for _ in range(rng.randint(0, 2))],
@@ -721,7 +863,7 @@ def gen_subq_case(rng: Rng) -> dict:
     zc = cond(["z"], rng.randint(0, 1)) if rng.chance(0.85) else None
     zdom = rng.sample(ids, rng.randint(1, n))
     by_id = {o["id"]: o for o in objs}
-    if zc is not None and not any(_py_holds(by_id, zc, {"z": i}) for i in zdom):
+    if zc is not None and not allow_empty and not any(_py_holds(by_id, zc, {"z": i}) for i in zdom):
         # a sub-query without answers is a variable over an empty domain: that is finding class K_emptydom (C01-h),
         # covered by the main stream; here the sub-query always has an answer
         zc = None
@@ -740,10 +882,12 @@ def gen_subq_case(rng: Rng) -> dict:
 
 def gen_case(rng: Rng, profile: str = "c01", extras: bool = False) -> dict:
     """profile c01: everything; c02: biased to the conjunctive / else-if fragment with duplicate-free domains"""
-    if profile == "flat":
-        return gen_flat_case(rng)
-    if profile == "subq":
-        return gen_subq_case(rng)
+    if profile == "flatT":
+        return gen_flat_twin_case(rng)
+    if profile in ("flat", "flat0"):
+        return gen_flat_case(rng, profile == "flat0")
+    if profile in ("subq", "subq0"):
+        return gen_subq_case(rng, profile == "subq0")
     if profile == "quant":
         r0 = rng.random()
         if r0 < 0.12:
